@@ -422,3 +422,73 @@ def make_score(rng, profile="rhythm", n_parts=None, features=None, groups=False,
     sc = S.Score(structure, id="generated")
     sc.meta = metas
     return sc
+
+
+def make_midmeasure_divchange_part(rng, late=None):
+    """A configuration make_part does not produce: the divisions change INSIDE a measure, at a position where an object
+    starts, inside a note, or in a silent stretch where the timeline has no time point at all.  With late=True the
+    change is set after all the content is on the timeline (as an editing session would do it).
+    Returns (part, q, f, where, change, n_before)."""
+    import partitura.score as S
+    q = rng.choice([2, 4, 6])
+    f = rng.choice([2, 3])
+    where = rng.choice(["at-onset", "inside-note", "silent"])
+    part = S.Part("P1", "divchange", quarter_duration=q)
+    part.add(S.TimeSignature(4, 4), 0)
+    part.add(S.Clef(1, "G", 2, 0), 0)
+    n_before = rng.randint(0, 2)
+    t = 0
+    k = 0
+    for m in range(n_before):
+        part.add(S.Measure(number=m + 1), t, t + 4 * q)
+        for j in range(4):
+            part.add(S.Note(rng.choice("CDEFGAB"), 4, id=f"n{k}", voice=1, staff=1, symbolic_duration={"type": "quarter"}), t + j * q, t + (j + 1) * q)
+            k += 1
+        t += 4 * q
+    # the measure with the change: one quarter note, one quarter of silence or a half note, then two quarters in the new divisions
+    m_start = t
+    if late and where == "at-onset":
+        # editing order: barlines and a dynamic mark are on the timeline first, then the divisions are set at a position
+        # where nothing stands yet, then the notes are entered
+        change = t + 2 * q
+        m_end = change + 2 * q * f
+        part.add(S.Measure(number=n_before + 1), m_start, m_end)
+        from partitura.io.importmusicxml import DYN_DIRECTIONS
+        part.add(DYN_DIRECTIONS["f"]("f", staff=None), change + q * f)
+        part.set_quarter_duration(change, q * f)
+        part.add(S.Note("G", 4, id=f"n{k}", voice=1, staff=1, symbolic_duration={"type": "half"}), t, t + 2 * q)
+        k += 1
+        for j in range(2):
+            part.add(S.Note(rng.choice("CDEFGAB"), 4, id=f"n{k}", voice=1, staff=1, symbolic_duration={"type": "quarter"}),
+                     change + j * q * f, change + (j + 1) * q * f)
+            k += 1
+        part.add(S.Note("C", 3, id=f"n{k}", voice=2, staff=1, symbolic_duration={"type": "half"}), t, t + 2 * q)
+        k += 1
+        part.add(S.Note("D", 3, id=f"n{k}", voice=2, staff=1, symbolic_duration={"type": "half"}), change, m_end)
+        return part, q, f, "at-onset-set-before-notes", change, n_before
+    long_first = where == "inside-note"
+    part.add(S.Note("G", 4, id=f"n{k}", voice=1, staff=1, symbolic_duration={"type": "half" if long_first else "quarter"}),
+             t, t + (2 * q if long_first else q))
+    k += 1
+    if where == "at-onset":
+        change = t + 2 * q
+    else:
+        cands = [x for x in range(t + q + 1, t + 2 * q)] or [t + q]
+        change = rng.choice(cands)
+    rest_old = t + 2 * q - change                 # old divisions left of the second quarter
+    new_t = change + rest_old * f                  # where the third quarter starts
+    for j in range(2):
+        part.add(S.Note(rng.choice("CDEFGAB"), 4, id=f"n{k}", voice=1, staff=1, symbolic_duration={"type": "quarter"}),
+                 new_t + j * q * f, new_t + (j + 1) * q * f)
+        k += 1
+    m_end = new_t + 2 * q * f
+    part.add(S.Measure(number=n_before + 1), m_start, m_end)
+    if rng.random() < 0.5:
+        # a second voice holding one note through the whole measure (it crosses the change)
+        part.add(S.Note("C", 3, id=f"n{k}", voice=2, staff=1, symbolic_duration={"type": "whole"}), m_start, m_end)
+        k += 1
+    part.set_quarter_duration(change, q * f)
+    if rng.random() < 0.5:
+        part.add(S.Measure(number=n_before + 2), m_end, m_end + 4 * q * f)
+        part.add(S.Note("C", 5, id=f"n{k}", voice=1, staff=1, symbolic_duration={"type": "whole"}), m_end, m_end + 4 * q * f)
+    return part, q, f, where, change, n_before
